@@ -329,6 +329,32 @@ def u_check_mass_balance(W, sk):
     if not sk["raise_error"]:
         W.prove("check_mass_balance.raise_error_false_never_raises", out.kind == "return", detail=repr(out))
     SL.check_unchanged(W, "check_mass_balance", snaps)
+    if not explicit and (S.flow_list or S.stock_list):
+        # history: the values of the same system object change (in place), the default tolerance is asked for again:
+        # it is scaled to the values the system holds *now*
+        import numpy as np
+
+        eps = float(np.finfo(float).eps)
+        new_arrays = []
+        for k, a in enumerate([f for f, _, _ in S.flow_list] + [st.stock for st, _ in S.stock_list]):
+            shape = list(W.shape_of(a.values))
+            nv = W.ndarray(f"later{k}", shape)
+            if not W.symbolic:
+                nv = nv * (2.0**20 if k % 2 == 0 else 2.0**-20)
+            W.call(lambda: a.values.__setitem__(Ellipsis, nv))
+            new_arrays.append(a.values)
+        afp2 = W.call(lambda: mfa._absolute_float_precision)
+        W.prove("default_tolerance.after_values_changed.can_be_formed", afp2.kind == "return", detail=repr(afp2))
+        if afp2.kind == "return":
+            if W.symbolic:
+                for k, a in enumerate(new_arrays):
+                    idx = tuple(W.fresh_int(f"dom2_{k}_{j}", 0, s_) for j, s_ in enumerate(W.shape_of(a)))
+                    if isinstance(a, symnp.SymArr) and a.ndim > 0:
+                        W.c.assume(symnp.reduction_bound_fact(symnp.sym_max(symnp.sym_abs(a)), idx), why="definition of max")
+                    W.prove(f"default_tolerance.after_values_changed.dominates[{k}]", afp2.value >= eps * abs(W.elem(a, idx)), detail="the tolerance follows the values the system holds now")
+            else:
+                want = eps * max([float(np.max(np.abs(a))) for a in new_arrays] + [0.0])
+                W.prove("default_tolerance.after_values_changed.value", W.num_eq(afp2.value, want) and abs(afp2.value - want) <= 1e-12 * want, detail=f"{afp2.value} vs {want}")
 
 
 @unit(
